@@ -586,9 +586,15 @@ class MessageManager(ClientLike):
             )
         )
 
+        # Modules that could not be served. They are dealt with (removal, CLIENT_CLOSED and
+        # FAILED_MESSAGE notices) only after every subscriber has had its turn, so that all
+        # receivers see this message before the notices it caused - and in the same order
+        failed_writes: List[Tuple[Module, Exception]] = []
+        dropped: List[Module] = []
+
         for n in range(len(subscribers)):
             module = subscribers[n]
-            # a failure while delivering to an earlier subscriber may already have removed this one
+            # a failure while delivering an earlier message may already have removed this one
             if module.conn not in self.modules:
                 continue
             if module.conn in self.wlist:
@@ -601,12 +607,7 @@ class MessageManager(ClientLike):
                         module.send_message(header, data)
                         module.drops = 0
                 except ConnectionError as err:
-                    self.remove_module(module)
-                    self.logger.error(
-                        f"Connection Error on write to {module!s} - {err!s}"
-                    )
-                    print("x", end="", flush=True)
-                    self.send_failed_message(module, header, time.perf_counter())
+                    failed_writes.append((module, err))
             elif module.is_logger:
                 # Block until logger is ready
                 select.select([], [module.conn], [], None)
@@ -615,20 +616,26 @@ class MessageManager(ClientLike):
                     module.send_message(header, data)
                     module.drops = 0
                 except ConnectionError as err:
-                    self.remove_module(module)
-                    self.logger.error(
-                        f"Connection Error on write to {module!s} - {err!s}"
-                    )
-                    print("x", end="", flush=True)
-                    # this could result in infinite recursion,
-                    # this is prevented by send_failed_message returning if
-                    # failed message type is failed_message.
-                    self.send_failed_message(module, header, time.perf_counter())
+                    failed_writes.append((module, err))
 
             else:
                 module.drops += 1
                 print("x", end="", flush=True)
-                self.send_failed_message(module, header, time.perf_counter())
+                dropped.append(module)
+
+        for module, err in failed_writes:
+            if module.conn not in self.modules:
+                continue
+            self.remove_module(module)
+            self.logger.error(f"Connection Error on write to {module!s} - {err!s}")
+            print("x", end="", flush=True)
+            # this could result in infinite recursion,
+            # this is prevented by send_failed_message returning if
+            # failed message type is failed_message.
+            self.send_failed_message(module, header, time.perf_counter())
+
+        for module in dropped:
+            self.send_failed_message(module, header, time.perf_counter())
 
     def send_to_loggers(
         self,
@@ -641,9 +648,13 @@ class MessageManager(ClientLike):
             header (MessageHeader): Message header to send
             payload (Union[bytes, MessageData]): Message data to send
         """
+        # Loggers whose connection failed are dealt with after every logger has had its turn
+        # (see forward_message)
+        failed_writes: List[Tuple[Module, Exception]] = []
+
         # iterate over a copy: a failed write removes the module from the set
         for module in list(self.logger_modules):
-            # a failure while sending to an earlier logger may already have removed this one
+            # a failure while sending an earlier message may already have removed this one
             if module.conn not in self.modules:
                 continue
             if module.conn not in self.wlist:
@@ -653,13 +664,18 @@ class MessageManager(ClientLike):
                 module.send_message(header, payload)
                 module.drops = 0
             except ConnectionError as err:
-                self.remove_module(module)
-                self.logger.error(f"Connection Error on write to {module!s} - {err!s}")
-                print("x", end="", flush=True)
-                # this could result in infinite recursion,
-                # this is prevented by send_failed_message returning if
-                # failed message type is failed_message.
-                self.send_failed_message(module, header, time.perf_counter())
+                failed_writes.append((module, err))
+
+        for module, err in failed_writes:
+            if module.conn not in self.modules:
+                continue
+            self.remove_module(module)
+            self.logger.error(f"Connection Error on write to {module!s} - {err!s}")
+            print("x", end="", flush=True)
+            # this could result in infinite recursion,
+            # this is prevented by send_failed_message returning if
+            # failed message type is failed_message.
+            self.send_failed_message(module, header, time.perf_counter())
 
     def send_message(
         self,
